@@ -5,13 +5,13 @@ sys.path.insert(0, os.path.dirname(os.path.dirname(os.path.abspath(__file__))))
 import vlib
 from vlib import VERIF
 
-CONTAINERS = ["queue", "vec", "str", "strz", "slotmap", "flatmap"]
+CONTAINERS = ["queue", "vec", "str", "strz", "slotmap", "flatmap", "option"]
 # exhaustive history length per container: (quick, thorough); bounded by the alphabet size
-MAXLEN = {"queue": (5, 6), "vec": (4, 5), "str": (3, 4), "strz": (4, 5), "slotmap": (4, 5), "flatmap": (4, 5)}
+MAXLEN = {"queue": (5, 6), "vec": (4, 5), "str": (3, 4), "strz": (4, 5), "slotmap": (4, 5), "flatmap": (4, 5), "option": (4, 5)}
 # random histories per container: (cases quick, cases thorough, max ops quick, max ops thorough)
 RANDOM = {"queue": (400, 4000, 2000, 10000), "vec": (400, 4000, 2000, 10000), "str": (400, 4000, 2000, 10000),
           "strz": (100, 1000, 200, 1000), "slotmap": (400, 4000, 2000, 10000),
-          "flatmap": (400, 4000, 2000, 10000)}
+          "flatmap": (400, 4000, 2000, 10000), "option": (200, 2000, 2000, 10000)}
 
 def _ops(hist):
     return [l for l in hist if l.startswith("O ")]
@@ -132,7 +132,7 @@ def run(ctx):
         case_no = int(line.split("case=")[1].split()[0])
         hist = vlib.extract_case(cmd.split(), driver, case_no)
         ctx.violation("correspondence model<->implementation broken (the concrete model disagrees with the implementation): " + line,
-                      {"obligation": "G3 correspondence of coq/model/{RingQueue,Vec,Str,SlotMap,FlatMap}.v with the implementation", "history": hist, "harness_cmd": cmd}, no_input=True)
+                      {"obligation": "G3 correspondence of coq/model/{RingQueue,Vec,Str,SlotMap,FlatMap,RelocOption}.v with the implementation", "history": hist, "harness_cmd": cmd}, no_input=True)
     if not proof_ok:
         if not ctx.violations:
             ctx.violation("proof obligation no longer checks: %s" % ctx.broken,
